@@ -23,6 +23,8 @@ CHECK_DEADLOCK FALSE
 FILTERS = [[], [1], [2], [3], [1, 2], [7], [2, 3], [4, 1]]
 # lists that name a type more than once (the command line flag appends to the file's list)
 FILTERS_DUP = [[2, 2], [1, 1], [2, 7, 2], [1, 2, 1], [7, 7]]
+# long lists: the listed type comes after many others
+FILTERS_LONG = [[3, 4, 5, 6, 7, 8, 9, 10, 1], list(range(3, 20)) + [2], [9] * 15 + [1, 2], list(range(100, 164)) + [2, 1], [3, 4, 5, 6, 7, 8, 9, 1, 2]]
 
 
 def gen_cfg(**kw):
